@@ -85,6 +85,12 @@ type dirState struct {
 
 	writerBlocked bool
 	writeCalls    int
+	// held: the scheduler holds the writer (wide-burst regime): Write accepts
+	// nothing until the unhold action, whatever the capacity
+	held bool
+	// malformed: the WRITER itself produced a header that the wire format forbids
+	malformed string
+	maxBody   int
 
 	// writer-side frame parser
 	frames []*frameInfo
@@ -130,8 +136,9 @@ type simConn struct {
 func (w *world) newConn(slot int) *simConn {
 	w.nextConn++
 	c := &simConn{id: w.nextConn, slot: slot, reqOps: map[uint64][]*op{}}
-	c.c2s = &dirState{c: c, name: "c2s", capBytes: w.cfg.Cap, badHdrEnd: -1}
-	c.s2c = &dirState{c: c, name: "s2c", capBytes: w.cfg.Cap, badHdrEnd: -1}
+	first := w.nextConn == 1
+	c.c2s = &dirState{c: c, name: "c2s", capBytes: w.cfg.Cap, badHdrEnd: -1, maxBody: w.cfg.MaxBody, held: first && w.cfg.Burst&1 != 0}
+	c.s2c = &dirState{c: c, name: "s2c", capBytes: w.cfg.Cap, badHdrEnd: -1, maxBody: w.cfg.MaxBody, held: first && w.cfg.Burst&2 != 0}
 	c.client = &endpoint{w: w, c: c, client: true, in: c.s2c, out: c.c2s}
 	c.server = &endpoint{w: w, c: c, client: false, in: c.c2s, out: c.s2c}
 	w.conns = append(w.conns, c)
@@ -245,7 +252,7 @@ func (e *endpoint) Write(b []byte) (int, error) {
 			w.mu.Unlock()
 			return n, errSimBroken
 		}
-		if space := d.capBytes - d.inflight(); space > 0 && n < len(b) {
+		if space := d.capBytes - d.inflight(); !d.held && space > 0 && n < len(b) {
 			take := len(b) - n
 			if take > space {
 				take = space
@@ -305,6 +312,9 @@ func (d *dirState) appendBytes(p []byte) {
 				f.hdrDone = true
 				f.bodyLen = int(binary.BigEndian.Uint32(f.hdr[16:20]))
 				f.end = f.start + wire.HeaderSize + f.bodyLen
+				if d.malformed == "" && specMalformed(f.hdr[:], d.maxBody) {
+					d.malformed = fmt.Sprintf("at stream offset %d the writer produced the header % x", f.start, f.hdr[:])
+				}
 				f.body = make([]byte, 0, minInt(f.bodyLen, 1<<16))
 			}
 		} else {
